@@ -1,14 +1,15 @@
 #!/bin/sh
-# Re-runs every kept seed (and, with "all", every seed under /tmp/wt/out) against the checks of its property;
-# prints the ones that are NOT reported as a violation (exit 1).
+# Re-runs every kept seed (and, with "all", every seed under /tmp/wt/out) against the checks of its property, 8 at a
+# time (each in its own scratch worktree); prints the ones that are NOT reported as a violation (exit 1).
 dirs="/verif/seeded/*/"
 [ "$1" = "all" ] && dirs="$dirs /tmp/wt/out/*/"
-n=0; bad=0
-for d in $dirs; do
-  d=${d%/}; [ -f "$d/patch.diff" ] || continue
+one() {
+  d=${1%/}; [ -f "$d/patch.diff" ] || exit 0
   id=$(basename "$d"); p=${id%%-*}
   r=$(/verif/tools/try_seed.sh "$d" "$p" | grep -E "^== " | head -1)
-  n=$((n+1))
-  case "$r" in *"exit=1"*) ;; *) echo "NOT DETECTED: $id ($r)"; bad=$((bad+1));; esac
-done
-echo "seeds regress: $n seeds, $bad not detected"
+  case "$r" in *"exit=1"*) echo "ok $id";; *) echo "NOT DETECTED: $id ($r)";; esac
+}
+if [ "$1" = "--one" ]; then one "$2"; exit 0; fi
+out=$(ls -d $dirs | xargs -P 8 -n 1 "$0" --one)
+echo "$out" | grep "NOT DETECTED"
+echo "seeds regress: $(echo "$out" | grep -c .) seeds, $(echo "$out" | grep -c 'NOT DETECTED') not detected"
